@@ -43,11 +43,24 @@ def dterm(rng, vs: List[str]) -> Dict[str, Any]:
     return gen.T({v: rng.choice([-3, -2, -1, 1, 2, 3, 0.5, -0.5, 1.5, 0.25]) for v in sel}, dyadic(rng, -6, 8))
 
 
+def span_term(rng, vs: List[str]) -> Dict[str, Any]:
+    """One term whose coefficients span 34-40 binary orders of magnitude (2^24..2^30 next to 2^-6..2^-10): the small
+    one still matters for values of a few hundred.  All data dyadic, sums stay below 53 bits."""
+    big, small = rng.sample(vs, 2)
+    c = {big: rng.choice([1.0, -1.0]) * 2.0 ** rng.randint(24, 30), small: rng.choice([1.0, -1.0]) * 2.0 ** -rng.randint(6, 10)}
+    return gen.T(c, dyadic(rng, -6, 8))
+
+
 def membership_case(rng) -> Dict[str, Any]:
     nv = rng.randint(1, 4)
     vs = gen.VN[:nv]
     terms = [dterm(rng, vs) for _ in range(rng.randint(1, 4))]
     beh = {v: dyadic(rng) for v in vs}
+    if nv >= 2 and rng.random() < 0.08:
+        st = span_term(rng, vs)
+        terms.insert(rng.randint(0, len(terms)), st)
+        small = min(st["c"], key=lambda v: abs(st["c"][v]))
+        beh[small] = float(rng.choice([1000, -1000, 512, -640, 96, 8]))
     mode = rng.choice(["on", "inside", "outside", "random", "all_inside", "missing", "extra"])
     # place the point relative to one (or all) boundaries by moving constants (exact: dyadic data)
     def val(t):
